@@ -3,6 +3,7 @@
    i.e. all message counts and all interleavings of sender, receiver, canceller, closer. *)
 From Coq Require Import ZArith List Bool Lia.
 From Grpchan Require Import gen.Inproc model.Chan1 proofs.Chan1.
+From Grpchan Require model.HttpClient proofs.HttpClient.
 From Grpchan Require model.InprocStream proofs.StreamInv proofs.StreamOrder proofs.StreamDeliver.
 Import ListNotations.
 Close Scope Z_scope.
@@ -68,3 +69,21 @@ Print Assumptions C01_full_stream_conservation.
 Theorem C01_full_stream_total : forall rs s, StreamInv.reachable rs s -> exists h, StreamDeliver.lreach rs s h.
 Proof. exact StreamDeliver.reachable_has_log. Qed.
 Print Assumptions C01_full_stream_total.
+
+(* ---- the HTTP client stream as a concurrent system (model/HttpClient.v): the reader goroutine, the caller's
+   receives, the transport's deliveries and the end of the context in every interleaving, for every reply body.
+   hreach carries ghost histories: the frames the reader's loop read (rd), those the deferred ReadAll threw
+   away (dn), and what RecvMsg returned (lg). *)
+
+(* the messages RecvMsg has returned on an HTTP response stream are, in order, a prefix of the data frames of
+   the reply body; and the reader takes the frames of the body once each, in order *)
+Theorem C01_http_delivered_prefix : forall b0 e0 s rd dn lg,
+  Grpchan.proofs.HttpClient.hreach true b0 e0 s rd dn lg -> Grpchan.model.HttpClient.respStream s = true ->
+  exists rest, Grpchan.proofs.HttpClient.datas b0 = (Grpchan.proofs.HttpClient.msgs_of lg ++ rest)%list.
+Proof. exact Grpchan.proofs.HttpClient.delivered_prefix. Qed.
+Print Assumptions C01_http_delivered_prefix.
+
+Theorem C01_http_read_in_order : forall rs b0 e0 s rd dn lg,
+  Grpchan.proofs.HttpClient.hreach rs b0 e0 s rd dn lg ->
+  exists lost, b0 = (rd ++ dn ++ Grpchan.model.HttpClient.body s ++ lost)%list.
+Proof. exact Grpchan.proofs.HttpClient.read_in_order. Qed.
